@@ -126,7 +126,7 @@ func (m *KRB5Token) Verify() (bool, gssapi.Status) {
 		if m.KRBError.MsgType != msgtype.KRB_ERROR {
 			return false, gssapi.Status{Code: gssapi.StatusDefectiveToken, Message: "KRB5_Error token not valid"}
 		}
-		return true, gssapi.Status{Code: gssapi.StatusUnavailable}
+		return false, gssapi.Status{Code: gssapi.StatusUnavailable}
 	}
 	return false, gssapi.Status{Code: gssapi.StatusDefectiveToken, Message: "unknown TOK_ID in KRB5 token"}
 }
